@@ -40,13 +40,14 @@ CornerEnds == {0, 3, 4, 5, 6, 10, 13, 16, 17, 20, 25, 26, 65535}
 AbsentType == LE16(65520)
 Types == {T[i].type : i \in 1..Len(T)} \cup {AbsentType, Expand(UCharDecl)}
 GroupTypes == {UPrimary, USecondary, UCharDecl, AbsentType}
-SvcValues == {T[i].val : i \in {j \in 1..Len(T) : IsGroup(T[j])}} \cup {AbsentType}
+SvcValues == {T[i].val : i \in {j \in 1..Len(T) : IsGroup(T[j])}}
+             \cup {Expand(T[i].val) : i \in {j \in 1..Len(T) : IsGroup(T[j])}} \cup {AbsentType}
 
 Requests ==
-    [op : {OpFindInfo}, s : Starts, e : Ends, type : {<<>>}, value : {<<>>}]
-    \cup [op : {OpReadByType}, s : Starts, e : Ends, type : Types, value : {<<>>}]
-    \cup [op : {OpReadByGroupType}, s : Starts, e : Ends, type : GroupTypes, value : {<<>>}]
-    \cup [op : {OpFindByTypeValue}, s : Starts, e : Ends, type : {UPrimary, USecondary}, value : SvcValues]
+    [op : {OpFindInfo}, s : Starts, e : Ends, type : {<<>>}, value : {<<>>}, loose : {FALSE}]
+    \cup [op : {OpReadByType}, s : Starts, e : Ends, type : Types, value : {<<>>}, loose : {FALSE}]
+    \cup [op : {OpReadByGroupType}, s : Starts, e : Ends, type : GroupTypes, value : {<<>>}, loose : {FALSE}]
+    \cup [op : {OpFindByTypeValue}, s : Starts, e : Ends, type : {UPrimary, USecondary}, value : SvcValues, loose : BOOLEAN]
 
 VARIABLES r0, mtu, cur, visited, state      \* state: "run" | "not_found" | "end" | "error"
 mvars == <<r0, mtu, cur, visited, state>>
